@@ -13,6 +13,9 @@ import Fca.Spec.LatticeQuery
 import Fca.Lemmas.LatticeQueryConcept
 import Fca.Lemmas.LatticeQuerySort
 import Fca.Lemmas.LatticeQueryChains
+import Fca.Lemmas.LatticeQueryChainsFull
+import Fca.Lemmas.LatticeQueryReindex
+import Fca.Lemmas.LatticeQueryPruned
 namespace Fca.C03
 open Fca Fca.LQ Fca.Spec
 
@@ -209,85 +212,176 @@ theorem listing_sorted (t : Table) (cs : Lat) (H : IsConceptList t cs) :
     rw [supportsNonIncreasing_of_pairwise hp, hh, hl]
     simp [extAll_nil]
 
-/-- PARTIAL (chain decomposition).  Proved: if `map_i_isort` holds, for every concept, its position in the
-    sorted listing (hypothesis `hpos` — in the code these positions come from a dictionary keyed by concept
-    hash/equality), then from ANY start concept the inner `while True:` loop of `_get_chains` terminates within
-    `n+1` rounds without `IndexError` and returns a path that starts at that concept, moves at every step to a
-    parent (so that, read backwards as `get_chains` returns it, it steps parent → child) and ends at the top
-    concept.  MISSING for the full statement: (1) the lemma that the two dictionary look-ups return the positions
-    (`dictIdx l l[k] = some k` on duplicate-free concept lists), which discharges `hpos`; (2) the outer loop:
-    every round starts at an unvisited concept, so the rounds terminate and the chains cover all concepts.
-    Both are validated per case by the correspondence check (`modelChainsOk`, model chains = get_chains()). -/
-theorem chains_correct_partial (t : Table) (cs : Lat) (H : IsConceptList t cs)
-    (ord : List Nat → List Nat) (ho : PQ.IsOrder ord) (iIsort : List Nat)
-    (hpos : ∀ i, i < cs.length → iIsort.getD i 0 < cs.length ∧
-      conc (sortConcepts cs) (iIsort.getD i 0) = conc cs i)
-    (ci : Nat) (hci : ci < cs.length) :
-    ∃ path topIdx, top cs = .ok topIdx ∧
-      chainClimb (parents cs ord) iIsort (cs.length + 1) ci (iIsort.getD ci 0) [] = .ok path ∧
-      path.head? = some ci ∧ path.getLast? = some topIdx ∧
-      Steps (fun c p => c ∈ children cs ord p) path := by
-  obtain ⟨k, hk, htop, hek⟩ := top_all_objects t cs H
+/-- `get_chains()` (= `_get_chains(elements, parents_dict)`; dictionaries keyed by concept, smallest parent
+    index, fuel-bounded loops) never raises and returns chains such that: every chain starts at the top concept,
+    every step goes from a concept to one of its children (lower covers), and every concept lies on some chain.
+    The Lean checker `chainsOk`, which judges the implementation's chains, accepts the result. -/
+theorem chains_correct (t : Table) (cs : Lat) (H : IsConceptList t cs)
+    (ord : List Nat → List Nat) (ho : PQ.IsOrder ord) :
+    ∃ chs k, top cs = .ok k ∧ chains cs ord = .ok chs ∧
+      (∀ ch ∈ chs, ch.head? = some k ∧ Steps (fun p c => c ∈ children cs ord p) ch) ∧
+      (∀ i, i < cs.length → ∃ ch ∈ chs, i ∈ ch) ∧
+      Spec.chainsOk (cs.map (·.1)) (List.range t.height) chs = true := by
+  obtain ⟨chs, k, hk, htop, hek, hok, hcov, hgood⟩ := chains_ok H ho
+  have conv : ∀ ch ∈ chs, Steps (fun p c => c ∈ Spec.lowerCovers (cs.map (·.1)) p) ch := by
+    intro ch hch
+    obtain ⟨_, hst, hb⟩ := hgood ch hch
+    apply steps_imp_mem ch _ hst
+    intro p hp c hc hpc
+    have hcn := hb c hc
+    have hpn := hb p hp
+    rw [parents_upper_covers t cs H ord ho c hcn, mem_upperCovers] at hpc
+    rw [mem_lowerCovers]
+    exact ⟨by rw [List.length_map]; exact hcn, hpc.2.1, hpc.2.2⟩
+  refine ⟨chs, k, htop, hok, ?_, hcov, ?_⟩
+  · intro ch hch
+    refine ⟨(hgood ch hch).1, ?_⟩
+    apply steps_imp_mem ch _ (conv ch hch)
+    intro p hp c _ hpc
+    rw [children_lower_covers t cs H ord ho p ((hgood ch hch).2.2 p hp)]
+    exact hpc
+  · unfold Spec.chainsOk
+    rw [Bool.and_eq_true, List.all_eq_true, List.all_eq_true]
+    constructor
+    · intro ch hch
+      rw [Bool.and_eq_true]
+      refine ⟨?_, chainSteps_of_steps _ ch (conv ch hch)⟩
+      rw [(hgood ch hch).1]
+      simp only [List.length_map, Bool.and_eq_true, decide_eq_true_eq, beq_iff_eq]
+      exact ⟨hk, by rw [exts_getD, hek]⟩
+    · intro i hi
+      rw [List.length_map] at hi
+      obtain ⟨ch, hch, hic⟩ := hcov i (List.mem_range.mp hi)
+      rw [List.any_eq_true]
+      exact ⟨ch, hch, by simpa using hic⟩
+
+/-- The Lindig path of `from_context`.  `cs0` is the concept list in the order Lindig's algorithm emitted it and
+    `chd` its `children_dict` (one key per concept, the set stored at key `i` = the lower covers of concept `i`;
+    this is what C02's `lindig_exact` bookkeeping yields).  Then `POSet.__init__` (worklist closure of the children
+    relation with the closed-form fuel `closedFuel n = (n+1)^(n+1)`, `_transpose_hierarchy` twice, the semilattice
+    constructors' top/bottom) followed by `from_context`'s re-sorting and re-indexing of the four caches and of
+    top/bottom never fails, and in the resulting lattice — whose element list is `sort_concepts cs0` — the
+    cached children / descendants / parents / ancestors of every concept are exactly the lower covers / strictly
+    smaller extents / upper covers / strictly larger extents of the SORTED list, `_cache_top = 0` and
+    `_cache_bottom = n-1`.  For every worklist order that is a permutation (`ord`). -/
+theorem lindig_path_correct (t : Table) (cs0 : Lat) (H : IsConceptList t cs0) (chd : LC.Dict)
+    (hkeys : LC.KeysNodup chd) (hklt : ∀ p ∈ chd, p.1 < cs0.length)
+    (hch : ∀ i, i < cs0.length → ∃ l, LC.dget chd i = some l ∧
+      ∀ x, x ∈ l ↔ x ∈ Spec.lowerCovers (cs0.map (·.1)) i)
+    (ord : List Nat → List Nat) (hord : ∀ l, (ord l).Perm l)
+    (fuel : Nat) (hfuel : LC.closedFuel cs0.length ≤ fuel) :
+    ∃ c0 m c, LC.initFromChildren chd cs0.length ord fuel = .ok c0 ∧
+      LC.reindex cs0 c0 = .ok (sortConcepts cs0, m, c) ∧
+      (∀ j, j < cs0.length →
+        (∃ l, LC.dget c.children j = some l ∧
+          ∀ x, x ∈ l ↔ x ∈ Spec.lowerCovers ((sortConcepts cs0).map (·.1)) j) ∧
+        (∃ l, LC.dget c.descendants j = some l ∧
+          ∀ x, x ∈ l ↔ x ∈ Spec.strictSub ((sortConcepts cs0).map (·.1)) j) ∧
+        (∃ l, LC.dget c.parents j = some l ∧
+          ∀ x, x ∈ l ↔ x ∈ Spec.upperCovers ((sortConcepts cs0).map (·.1)) j) ∧
+        (∃ l, LC.dget c.ancestors j = some l ∧
+          ∀ x, x ∈ l ↔ x ∈ Spec.strictSuper ((sortConcepts cs0).map (·.1)) j)) ∧
+      c.top = some 0 ∧ c.bottom = some (cs0.length - 1) := by
   have Hs := H.sort
-  have hp := sortConcepts_supports cs
-  have hlen : (sortConcepts cs).length = cs.length := (sortConcepts_perm cs).length_eq
-  -- position 0 of the sorted list holds the top concept
-  have h0 : extOf (sortConcepts cs) 0 = List.range t.height := by
-    rw [extOf_zero_of_head (head_of_sorted Hs hp)]; exact extAll_nil t
-  -- supports along sorted positions
-  have hmono : ∀ a b, a < b → b < cs.length →
-      (extOf (sortConcepts cs) b).length ≤ (extOf (sortConcepts cs) a).length := by
-    intro a b hab hb
-    have := (List.pairwise_iff_getElem.mp hp) a b (by omega) (by omega) hab
-    simpa [extOf, conc, List.getD_eq_getElem?_getD, List.getElem?_eq_getElem, hlen, hb,
-      show a < cs.length by omega] using this
-  have hext : ∀ i, i < cs.length → extOf (sortConcepts cs) (iIsort.getD i 0) = extOf cs i := by
-    intro i hi; unfold extOf; rw [(hpos i hi).2]
-  have S : ChainSetup (parents cs ord) iIsort cs.length k := by
-    refine ⟨?_, ?_, ?_, fun i hi => (hpos i hi).1⟩
-    · intro i hi _ p hpP
-      obtain ⟨hpn, hle, hne⟩ := H.parents_lt ho hpP
-      refine ⟨hpn, ?_⟩
-      have hlt := H.ext_len_lt hi hpn hle (fun e => hne e.symm)
-      rw [← hext i hi, ← hext p hpn] at hlt
-      rcases Nat.lt_trichotomy (iIsort.getD p 0) (iIsort.getD i 0) with h | h | h
-      · exact h
-      · rw [h] at hlt; omega
-      · have := hmono _ _ h (hpos p hpn).1; omega
-    · intro i hi hne hnil
-      have hik : i ≠ k := by
-        intro e
-        apply hne
-        have : extOf (sortConcepts cs) (iIsort.getD i 0) = extOf (sortConcepts cs) 0 := by
-          rw [hext i hi, e, hek, h0]
-        exact Hs.ext_inj (by rw [hlen]; exact (hpos i hi).1) (by rw [hlen]; omega) this
-      have hka : k ∈ ancestors cs i := by
-        refine PQ.mem_ancestors.mpr ⟨hk, ?_, fun e => hik e.symm⟩
-        rw [H.leq_iff hi k, hek]
-        exact fun g hg => List.mem_range.mpr (H.ext_lt hi g hg)
-      obtain ⟨j, hj, _⟩ := H.parent_below ho hka
-      rw [hnil] at hj; cases hj
-    · intro i hi hz
-      apply H.ext_inj hi hk
-      rw [← hext i hi, hz, h0, hek]
-  obtain ⟨path, hok, hh, hl, hs, hb⟩ := climb_ok S (cs.length + 1) ci [] hci (by have := (hpos ci hci).1; omega)
-  refine ⟨path, k, htop, by simpa using hok, hh, hl, ?_⟩
-  -- a parent step, read from the parent's side, is a child step
-  have conv : ∀ l : List Nat, (∀ x ∈ l, x < cs.length) → Steps (fun x y => y ∈ parents cs ord x) l →
-      Steps (fun c p => c ∈ children cs ord p) l := by
-    intro l
-    induction l with
-    | nil => intro _ _; trivial
-    | cons x rest ih =>
-      intro hl hst
-      refine ⟨fun y hy => ?_, ih (fun z hz => hl z (List.mem_cons_of_mem _ hz)) hst.2⟩
-      have hyp : y ∈ parents cs ord x := hst.1 y hy
-      show x ∈ children cs ord y
-      have hx := hl x List.mem_cons_self
-      obtain ⟨hyn, _, _⟩ := H.parents_lt ho hyp
-      rw [parents_upper_covers t cs H ord ho x hx, mem_upperCovers] at hyp
-      rw [children_lower_covers t cs H ord ho y hyn, mem_lowerCovers]
-      exact ⟨by rw [List.length_map]; exact hx, hyp.2.1, hyp.2.2⟩
-  exact conv path hb hs
+  have hlen : (sortConcepts cs0).length = cs0.length := (sortConcepts_perm cs0).length_eq
+  have hp := sortConcepts_supports cs0
+  -- the hypotheses of the worklist lemma
+  have S : LC.ClosedSetup (leq cs0) cs0.length (fun a => (extOf cs0 a).length) chd := by
+    refine ⟨H.isPO, fun a b ha hb h hne => H.ext_len_lt ha hb h hne, hkeys, hklt, ?_⟩
+    intro i hi
+    obtain ⟨l, hl, hm⟩ := hch i hi
+    refine ⟨l, hl, fun x => ?_⟩
+    rw [hm x, ← children_lower_covers t cs0 H id PQ.isOrder_id i hi]
+    rfl
+  obtain ⟨kt, hkt, _, hekt⟩ := top_all_objects t cs0 H
+  obtain ⟨kb, hkb, _, hekb⟩ := bottom_ext_all_attrs t cs0 H
+  have hgreat : ∀ j, j < cs0.length → leq cs0 j kt = true := by
+    intro j hj
+    rw [H.leq_iff hj kt, hekt]
+    exact fun g hg => List.mem_range.mpr (H.ext_lt hj g hg)
+  have hleast : ∀ j, j < cs0.length → leq cs0 kb j = true := by
+    intro j hj
+    rw [H.leq_iff hkb j, hekb, ← H.ext_eq hj]
+    exact extAll_antitone t (fun a ha => List.mem_range.mpr (H.int_lt hj a ha))
+  obtain ⟨c0, hinit, _, gch, gdesc, gpar, ganc, htop, hbot⟩ :=
+    S.init_ok hord hfuel hkb hleast hkt hgreat
+  obtain ⟨m, hm, iso, hconc⟩ := LC.mapIsort_ok H
+  have po1 : PQ.IsPO (leq (sortConcepts cs0)) cs0.length := by
+    have := Hs.isPO; rwa [hlen] at this
+  refine ⟨c0, m, ⟨LC.reindexDict m c0.children, LC.reindexDict m c0.descendants, LC.reindexDict m c0.parents,
+    LC.reindexDict m c0.ancestors, c0.top.map (m.getD · 0), c0.bottom.map (m.getD · 0)⟩, hinit, ?_, ?_, ?_, ?_⟩
+  · unfold LC.reindex
+    simp only [hm]
+  · intro j hj
+    have hj' : j < (sortConcepts cs0).length := by rw [hlen]; exact hj
+    refine ⟨?_, ?_, ?_, ?_⟩
+    · obtain ⟨l, hl, hmem⟩ := LC.reindex_good iso gch (R1 := PQ.children (leq (sortConcepts cs0)) cs0.length id)
+        (fun i hi y => iso.children H.isPO po1 hi y) j hj
+      refine ⟨l, hl, fun x => ?_⟩
+      rw [hmem x, ← children_lower_covers t _ Hs id PQ.isOrder_id j hj']
+      unfold children; rw [hlen]
+    · obtain ⟨l, hl, hmem⟩ := LC.reindex_good iso gdesc (R1 := PQ.descendants (leq (sortConcepts cs0)) cs0.length)
+        (fun i hi y => iso.desc hi y) j hj
+      refine ⟨l, hl, fun x => ?_⟩
+      rw [hmem x, ← descendants_strict_subextents t _ Hs j hj']
+      unfold descendants; rw [hlen]
+    · obtain ⟨l, hl, hmem⟩ := LC.reindex_good iso gpar (R1 := PQ.parents (leq (sortConcepts cs0)) cs0.length id)
+        (fun i hi y => iso.parents H.isPO po1 hi y) j hj
+      refine ⟨l, hl, fun x => ?_⟩
+      rw [hmem x, ← parents_upper_covers t _ Hs id PQ.isOrder_id j hj']
+      unfold parents; rw [hlen]
+    · obtain ⟨l, hl, hmem⟩ := LC.reindex_good iso ganc (R1 := PQ.ancestors (leq (sortConcepts cs0)) cs0.length)
+        (fun i hi y => iso.anc hi y) j hj
+      refine ⟨l, hl, fun x => ?_⟩
+      rw [hmem x, ← ancestors_strict_superextents t _ Hs j hj']
+      unfold ancestors; rw [hlen]
+  · show c0.top.map (m.getD · 0) = some 0
+    rw [htop]
+    simp only [Option.map_some, Option.some.injEq]
+    have h0 : extOf (sortConcepts cs0) 0 = List.range t.height := by
+      rw [extOf_zero_of_head (head_of_sorted Hs hp)]; exact extAll_nil t
+    have hpos : 0 < cs0.length := by omega
+    apply Hs.ext_inj (by rw [hlen]; exact iso.rng kt hkt) (by rw [hlen]; exact hpos)
+    unfold extOf
+    rw [hconc kt hkt]
+    exact hekt.trans h0.symm
+  · show c0.bottom.map (m.getD · 0) = some (cs0.length - 1)
+    rw [hbot]
+    simp only [Option.map_some, Option.some.injEq]
+    have hl := extOf_last_of_getLast (getLast_of_sorted Hs hp)
+    rw [hlen] at hl
+    apply Hs.ext_inj (by rw [hlen]; exact iso.rng kb hkb) (by rw [hlen]; omega)
+    unfold extOf
+    rw [hconc kb hkb]
+    exact hekb.trans hl.symm
+
+/-! ### pruned lattices (after `del L[i]` / `L.remove(c)`): any duplicate-free list of concepts of the table -/
+
+/-- the hypothesis of the pruned versions: a duplicate-free list of formal concepts of `t` (not necessarily all) -/
+abbrev IsConceptSub := LQ.IsConceptSub
+
+/-- non-vacuity: the example lattice with two inner concepts deleted (top and bottom kept) -/
+example : IsConceptSub exTable [([0, 1, 2], []), ([0, 2], [0]), ([2], [0, 1]), ([0], [0, 2]), ([], [0, 1, 2])] := by
+  decide
+example (t : Table) (cs : Lat) (H : IsConceptList t cs) : IsConceptSub t cs := H.toSub
+
+/-- in a pruned lattice the four order queries are still those of extent inclusion *within the list*:
+    strictly smaller / larger extents and the lower / upper covers among the remaining concepts -/
+theorem pruned_relations (t : Table) (cs : Lat) (H : IsConceptSub t cs)
+    (ord : List Nat → List Nat) (ho : PQ.IsOrder ord) (i : Nat) (hi : i < cs.length) :
+    descendants cs i = Spec.strictSub (cs.map (·.1)) i ∧
+    ancestors cs i = Spec.strictSuper (cs.map (·.1)) i ∧
+    children cs ord i = Spec.lowerCovers (cs.map (·.1)) i ∧
+    parents cs ord i = Spec.upperCovers (cs.map (·.1)) i :=
+  ⟨H.descendants_eq i hi, H.ancestors_eq i hi, H.children_eq ho i hi, H.parents_eq ho i hi⟩
+
+/-- a pruned lattice that keeps the concept of all objects and the concept of all attributes still has exactly
+    one top (extent = all objects) and one bottom (extent = objects having every attribute) -/
+theorem pruned_top_bottom (t : Table) (cs : Lat) (H : IsConceptSub t cs)
+    (htop : (extAll t [], closureAttr t []) ∈ cs)
+    (hbot : (extAll t (List.range t.width), closureAttr t (List.range t.width)) ∈ cs) :
+    (∃ k, k < cs.length ∧ top cs = .ok k ∧ extOf cs k = List.range t.height) ∧
+    (∃ k, k < cs.length ∧ bottom cs = .ok k ∧ extOf cs k = extAll t (List.range t.width)) :=
+  ⟨H.top_eq htop, H.bottom_eq hbot⟩
 
 end Fca.C03
